@@ -10,6 +10,8 @@
 //     cells, paragraphs) written as DOCX, ODT, PPTX, HTML (docwriters.go) and XLSX (writers.XLSX),
 //     read through <format>.Reader.MarkdownWithRAGOptions and tabula.Open(f).ToMarkdownWithOptions
 //     under all Markdown options; oracle = the harness's Markdown reader (mdread.go).
+//  4. heading sweep (headsweep.go): every source level a format can express x every heading
+//     configuration x every Markdown entry point, on one file per case.
 package c15
 
 import (
@@ -442,10 +444,11 @@ func direct(c *hx.Ctx) {
 }
 
 func Run(c *hx.Ctx) {
-	c.Rep.Rule = "direct: random tables (1..14 rows x 1..12 cols; cells from an alphabet with '|', newline, spaces, empty, unicode, markdown punctuation; no backslash) through all six ToMarkdown writers, docx/odt also with random ColSpan/vertical-merge cells; levels: the full box level -1..10 x offset -3..8 x max 0..7; documents: random block sequences (headings 1..6, paragraphs, nested lists depth<=3, tables with merges) written by independent DOCX/ODT/PPTX/HTML/XLSX writers under all Markdown options (metadata x TOC x offset -2..+7 x max 1..6, enumerated); non-trivial = table containing '|' or newline, document with a table/heading/list; distinct by canonical input"
+	c.Rep.Rule = "direct: random tables (1..14 rows x 1..12 cols; cells from an alphabet with '|', newline, spaces, empty, unicode, markdown punctuation; no backslash) through all six ToMarkdown writers, docx/odt also with random ColSpan/vertical-merge cells; levels: the full box level -1..10 x offset -3..8 x max 0..7; documents: random block sequences (headings of every level the format expresses — DOCX 1..9 as built-in style / direct outlineLvl / custom style / derived style, ODT 1..10, HTML 1..6, PPTX titles —, paragraphs, nested lists depth<=3, tables with merges) written by independent DOCX/ODT/PPTX/HTML/XLSX writers under all Markdown options (metadata x TOC x offset -2..+7 x max 1..6, enumerated); heading sweep: per format files with a heading of every expressible level, each read under all 70 configurations (offset -2..+7 x max 0..6) through Reader.MarkdownWithRAGOptions, tabula.Open.ToMarkdownWithOptions and once through Reader.Markdown, Reader.MarkdownWithOptions, tabula.Open.ToMarkdown; non-trivial = table containing '|' or newline, document with a table/heading/list; distinct by canonical input"
 	direct(c)
 	levels(c)
 	documents(c)
+	headingSweep(c)
 }
 
 // Replay re-runs one recorded failing case on the implementation.
@@ -487,6 +490,10 @@ func Replay(c *hx.Ctx, kase map[string]interface{}) {
 		idx, _ := kase["index"].(float64)
 		format, _ := kase["format"].(string)
 		runDocument(c, int(idx), format, true)
+	case "hsweep":
+		idx, _ := kase["index"].(float64)
+		format, _ := kase["format"].(string)
+		runSweepDoc(c, int(idx), format, true)
 	default:
 		direct(c)
 	}
